@@ -17,6 +17,7 @@ import Pycdlib.Model.Unicode
 import Pycdlib.Model.Udf
 import Pycdlib.Model.Boot
 import Pycdlib.Model.Hybrid
+import Pycdlib.Model.Tools
 namespace Pycdlib
 
 def parseCps (s : String) : Option (List Nat) :=
@@ -142,6 +143,18 @@ def dispatchPure (toks : List String) : Option String :=
   | ["eltcsum", hx] => do let b ← ofHex hx; pure (toString (elToritoChecksum (b.map (·.toNat))))
   | ["bitcsum", hx] => do let b ← ofHex hx; pure (toString (bootInfoChecksum (b.map (·.toNat))))
   | "spec" :: rr :: ops => some (Spec.runProtocol (rr = "1") ops)
+  | ["mm3", seed, hx] => do let b ← ofHex hx; pure (toString (Tools.mm3 (← seed.toNat?) (b.map (·.toNat))))
+  | "collide" :: lvl :: isdir :: names => do
+    let l ← lvl.toNat?
+    let ns ← names.mapM fun h => (ofHex h).map fun b => b.map fun x => Char.ofNat x.toNat
+    let (rs, _) := Tools.isoChildren Tools.asciiUpper l (isdir = "1") [] ns
+    pure (" ".intercalate (rs.map fun r => match r with
+      | none => "-"
+      | some t => hexs (t.map fun c => UInt8.ofNat c.toNat)))
+  | ["jolietpath", root, name] => do
+    let r ← parseCps root; let n ← parseCps name
+    let comps := Tools.jolietComponents ((r.map Char.ofNat).splitOn '/') (n.map Char.ofNat)
+    pure (cpsToString (comps.flatMap fun c => '/' :: c))
   | _ => none
 
 def dispatchIO (toks : List String) : IO (Option String) := do
